@@ -184,6 +184,7 @@ struct World {
     adv: Addr,
     pools: Vec<Addr>,
     vaults: Vec<Addr>,
+    vault_assets: Vec<usize>,
     // monitor bookkeeping (independent of the model)
     expired: BTreeSet<u64>,
     rolled: BTreeSet<u64>,
@@ -427,8 +428,12 @@ impl World {
                 None,
             )
             .unwrap();
+        let vault_assets: Vec<usize> = kv
+            .get("vaults")
+            .map(|v| v.split(',').filter_map(|x| x.parse::<usize>().ok()).filter(|x| *x < 3).collect())
+            .unwrap_or_else(|| VAULTS.to_vec());
         let mut vaults = vec![];
-        for (i, a) in VAULTS.iter().enumerate() {
+        for (i, a) in vault_assets.iter().enumerate() {
             app.execute_contract(
                 admin.clone(),
                 vfac.clone(),
@@ -490,6 +495,7 @@ impl World {
             adv,
             pools,
             vaults,
+            vault_assets,
             expired: BTreeSet::new(),
             rolled: BTreeSet::new(),
             paid: BTreeSet::new(),
@@ -649,6 +655,7 @@ struct Gen {
     left: u64,
     phase: u8, // 0 = in-round ops, 1 = newepoch due
     setup: Vec<String>,
+    scen_round: u64, // last round in which the failing-aggregation scenario was injected
 }
 
 impl Feeflow {
@@ -861,8 +868,8 @@ impl Feeflow {
             }
             "loan" => {
                 let (Some(vi), Some(a)) = (pn(args.first()), pn(args.get(1))) else { return ("bad-op".into(), vec![]) };
-                let vi = vi as usize % 3;
-                let denom = ASSETS[VAULTS[vi]];
+                let vi = vi as usize % w.vaults.len().max(1);
+                let denom = ASSETS[w.vault_assets[vi]];
                 let before = w.vault_pending(vi);
                 let pay: Result<v::PaybackAmountResponse, _> =
                     w.app.wrap().query_wasm_smart(&w.vaults[vi], &v::QueryMsg::GetPaybackAmount { amount: a.into() });
@@ -1180,7 +1187,7 @@ impl Feeflow {
         }
         let mut collected = vec![0u128; ASSETS.len()];
         // vaults: everything pending is collected
-        for (i, a) in VAULTS.iter().enumerate() {
+        for (i, a) in w.vault_assets.iter().enumerate() {
             mon.check("C10", "pending_collected", post.vp[i] == 0, d(format!("vault {i} still has {} pending after NewEpoch", post.vp[i])));
             collected[*a] += pre.vp[i];
             mon.stat(match pre.vp[i] {
@@ -1248,6 +1255,40 @@ impl Feeflow {
             } else {
                 "agg_untouched_sim_failed"
             });
+        }
+        // a failed step must fail the whole operation: after a SUCCESSFUL NewEpoch an asset above the
+        // threshold can only have stayed in the collector if its route did not simulate. For a one-hop
+        // route whose pair no swap of this transaction went through, the pair is still in the state
+        // it had when the collector simulated, so the simulation can be repeated now.
+        for i in 0..ASSETS.len() {
+            if i == DIST {
+                continue;
+            }
+            let have = pre.cbal[i] + collected[i];
+            let direct_pool = POOLS.iter().position(|(a, b)| (*a == i && *b == DIST) || (*b == i && *a == DIST));
+            if let Some(pi) = direct_pool {
+                if have > THRESH && pre.rt[i] == 1 && post.cbal[i] == have && pre.reg[pi] && !swaps.iter().any(|s| s.pool == pi) {
+                    let sim: Result<r::SimulateSwapOperationsResponse, _> = w.app.wrap().query_wasm_smart(
+                        &w.router,
+                        &r::QueryMsg::SimulateSwapOperations {
+                            offer_amount: have.into(),
+                            operations: vec![r::SwapOperation::TerraSwap {
+                                offer_asset_info: nat(ASSETS[i]),
+                                ask_asset_info: nat(ASSETS[DIST]),
+                            }],
+                        },
+                    );
+                    mon.check(
+                        "C10",
+                        "failed_step_fails_operation",
+                        sim.is_err(),
+                        d(format!(
+                            "NewEpoch succeeded and left {have} {} in the collector although its registered one-hop route simulates: the swap step must have failed without failing the operation",
+                            ASSETS[i]
+                        )),
+                    );
+                }
+            }
         }
         let mut chains = 0;
         for s in swaps {
@@ -1375,6 +1416,7 @@ impl Engine for Feeflow {
                 left: rng.range(2, 8),
                 phase: 0,
                 setup: vec![],
+                scen_round: u64::MAX,
             };
             // routes registered at the start (as ops, so that the model follows)
             for a in 0..2 {
@@ -1388,8 +1430,11 @@ impl Engine for Feeflow {
                 let rate = gen_rate(rng);
                 self.g.setup.push(format!("admin colcfg rate={rate} dao={} active={}", rng.below(2), rng.below(2)));
             }
+            // which assets have a vault: an asset with a pool but no vault is only aggregated in the
+            // last (pools) stage of ForwardFees
+            let vaults = *rng.pick(&["2,1,0", "2,1,0", "2,1", "2,0", "1,0", "2,1,0"]);
             return Some(format!(
-                "init feeflow grace={grace} genesis={genesis} dur={DAY} pools=0.2,1.2,0.1 vaults=2,1,0 dist={DIST} nusers={NUSERS} pf={} vf={} growth={growth}",
+                "init feeflow grace={grace} genesis={genesis} dur={DAY} pools=0.2,1.2,0.1 vaults={vaults} dist={DIST} nusers={NUSERS} pf={} vf={} growth={growth}",
                 join(&pf, ","),
                 join(&vfs, ",")
             ));
@@ -1437,6 +1482,22 @@ impl Feeflow {
             }
             if self.g.round > self.g.rounds + 8 {
                 return None; // safety
+            }
+            // a step that fails only in the LAST (pools) aggregation stage: an asset without a vault,
+            // above the aggregation threshold in the collector, routed through a pair whose swaps are
+            // disabled (the router's simulation does not look at the switch, the execution does).
+            // The whole NewEpoch must then fail and leave everything unchanged.
+            if self.g.scen_round != self.g.round && n_epochs >= 1 && rng.chance(1, 5) {
+                self.g.scen_round = self.g.round;
+                // prefer an asset without a vault (then only the pools stage touches it)
+                let novault: Vec<u64> = (0..2u64).filter(|a| !w.vault_assets.contains(&(*a as usize))).collect();
+                let a = if novault.is_empty() { rng.below(2) } else { *rng.pick(&novault) };
+                // popped from the end: addroute, gift, toggle off, (then newepoch)
+                self.g.setup.push(format!("admin toggle {a} 0"));
+                self.g.setup.push(format!("admin gift col {a} {}", 1001 + rng.below(100_000)));
+                let first = format!("admin addroute {a} direct");
+                self.g.t += 1_000_000_000;
+                return Some(first);
             }
             let next_start = if n_epochs == 0 { self.g.genesis } else { last.eps[0].start + DAY };
             // early attempt just before the boundary
@@ -1491,7 +1552,7 @@ impl Feeflow {
             };
             format!("trader swap {pi} {side} {}", amt.max(1))
         } else if k < 34 {
-            let vi = rng.below(3);
+            let vi = rng.below(w.vaults.len().max(1) as u64);
             let amt = match rng.below(5) {
                 0 => rng.range(1, 5000) as u128,
                 1 => 100_000,
